@@ -421,6 +421,11 @@ def execute(case):
             else:
                 got, exp = call()
         except Exception as exc:  # pylint: disable=broad-except
+            if special and isinstance(exc, (ValueError, TypeError)):
+                # rejecting the empty basis / the empty permutation is a legitimate way of treating
+                # them (Av does): only a wrong verdict on them is judged
+                hist.log.add("verdict", idx, entry, cont, sym, "rejected")
+                continue
             hist.violate("exception", {"entry": entry, "type": type(exc).__name__, "cont": cont},
                          f"{entry}({cont} of {img}): {type(exc).__name__}: {exc}")
             break
